@@ -49,6 +49,33 @@ class PyLcd:
         return self._proj(self.c.read(addr, cpu_pc=0))
 
 
+class PyLcdBus(PyLcd):
+    """The same controller reached the way the CPU reaches it: through PCE500Memory's LCD overlays, with non-zero RAM lying under
+    both windows.  A shadow controller (driven directly) only tells whether a read strobe is driven at all; for an undriven strobe
+    the bus falls back to the RAM byte, which is reported as 'no value' (-1) like the controller's None."""
+
+    def __init__(self):
+        from pce500.display.controller_wrapper import HD61202Controller
+        from pce500.memory import PCE500Memory
+        self.c = HD61202Controller()
+        self.shadow = HD61202Controller()
+        self.m = PCE500Memory()
+        self.m.set_lcd_controller(self.c)
+        for a in list(range(0x2000, 0x2010)) + list(range(0xA000, 0xB000)):
+            self.m.external_memory[a] = 0x80 | ((a * 7 + 0x25) & 0x7F) or 0xA5
+        self.prev = self._vram()
+
+    def write(self, addr, v):
+        self.shadow.write(addr, v, cpu_pc=0)
+        self.m.write_byte(addr, v)
+        return self._proj(None)
+
+    def read(self, addr):
+        driven = self.shadow.read(addr, cpu_pc=0)
+        got = self.m.read_byte(addr)
+        return self._proj(None if driven is None else got)
+
+
 class RsLcd:
     def __init__(self, vh: Vh):
         self.vh = vh
@@ -68,7 +95,7 @@ class RsLcd:
 
 
 def drive_one(impl: str, acts: List[Dict[str, Any]], vh: Vh, tid: int) -> List[Dict[str, Any]]:
-    lcd = PyLcd() if impl == "py" else RsLcd(vh)
+    lcd = PyLcd() if impl == "py" else (PyLcdBus() if impl == "pybus" else RsLcd(vh))
     ev = [{"tid": tid, "ev": "Init", "impl": impl}]
     for a in acts:
         if a["ev"] == "W":
@@ -87,7 +114,8 @@ def drive_shard(shard_id: int, items, extra):
     try:
         for acts in items:
             per = {}
-            for impl in ("py", "rs"):
+            impls = ("py", "rs") if extra != "bus" else ("pybus",)
+            for impl in impls:
                 tid += 1
                 meta[tid] = {"impl": impl, "acts": acts}
                 e = drive_one(impl, acts, vh, tid)
@@ -108,10 +136,10 @@ def _shape(b, meta) -> str:
     return "protocol"
 
 
-def campaign(cr: CheckRun, items, tag: str) -> None:
+def campaign(cr: CheckRun, items, tag: str, extra=None) -> None:
     if not items:
         return
-    ntr, nev, bad = vlib.trace_campaign("C15", SD, "TraceLcd", "TraceLcd.cfg", items, drive_shard, tag)
+    ntr, nev, bad = vlib.trace_campaign("C15", SD, "TraceLcd", "TraceLcd.cfg", items, drive_shard, tag, extra=extra)
     for b, meta in bad:
         shape = _shape(b, meta)
         cr.violation(f"{b['clause']}:{meta['impl']}:{shape}", f"{meta['impl']} LCD: {b['clause']} differs from the HD61202 protocol ({shape}) at step {b['line']}: {b['detail']}",
@@ -335,6 +363,16 @@ def run(cr: CheckRun) -> None:
     rnd = random_sequences(cr.seed, 400 if quick else 6000, 120)
     campaign(cr, rnd, "random")
     cr.mark("random")
+    # the same sequences through the memory bus (addresses inside the two overlay windows: 0x2000-0x200F and 0xA000-0xAFFF)
+    def on_bus(acts):
+        out = []
+        for a in acts:
+            a = dict(a)
+            if (a["addr"] & 0xF000) == 0x2000:
+                a["addr"] = 0x2000 | (a["addr"] & 0x0F)
+            out.append(a)
+        return out
+    campaign(cr, [on_bus(x) for x in rnd[: (200 if quick else 2000)]], "random-through-the-memory-bus", extra="bus")
     display_determined(cr)
     cr.mark("display-determined")
     # pixel maps: complete enumeration of all 8192 VRAM bits on both implementations
